@@ -204,7 +204,7 @@ def pool_part(ctx):
     every allocation with its own pattern and checks them all at the end, ASan watches every write and Continue's memcpy.  The model side
     carries the theorems pool_allocations_in_page / _disjoint / pool_continue_copies_in_bounds / pool_shift_count_small (Props/C20)."""
     rng = ctx.rng
-    seqs = [["a5", "a0", "c3", "c-2", "a100", "c40", "a1"], ["a0", "a0"], [], ["a31", "a1", "a1"], ["a32", "a64", "a128", "a1"], ["a33", "a1"],
+    seqs = [["a5", "a0", "c3", "c-2", "a100", "c40", "a1"], ["a0", "a0"], [], ["a1", "a0", "a0", "a31", "a0", "a0"], ["a0", "a1", "a0"], ["a31", "a1", "a1"], ["a32", "a64", "a128", "a1"], ["a33", "a1"],
             ["a1", "c31", "c1", "c-33", "a32"], ["a10", "a10", "c12", "c1"], ["a10", "a10", "c13"], ["a7", "c-7", "a0", "a32", "a0", "c1"],
             ["a1000000", "a1", "c5000000", "a3"], ["a16"] * 40, ["a1"] * 300, ["a24", "c8", "c8", "c8", "c8", "c8", "c8", "c8", "c8", "c8"]]
     for it in range(150 if ctx.tier == "quick" else 3000):
